@@ -201,3 +201,10 @@ pub fn exact_copy<const N: usize>(g: &Sodg<N>) -> Option<Sodg<N>> {
         None
     }
 }
+
+/// keys() as a sorted list: no property fixes the order in which keys() lists the present ids.
+pub fn keys_sorted<const N: usize>(g: &Sodg<N>) -> Vec<usize> {
+    let mut k = g.keys();
+    k.sort_unstable();
+    k
+}
